@@ -107,6 +107,7 @@ type Reply struct {
 	K       int    `json:"k,omitempty"` // parameter of the perturbation (e.g. identifier bump)
 	// Garbage: byte-level damage applied last: trunc:<n>|flip:<off>:<mask>|cut:<n>|append:<n>
 	Garbage string `json:"garbage,omitempty"`
+	OuterOpts bool `json:"outerOpts,omitempty"` // direct IPv4 replies: carry IP options on the outer header (IHL > 5)
 	Dup     int    `json:"dup,omitempty"`     // extra identical copies
 	DupGapUs int64 `json:"dupGapUs,omitempty"` // spacing of the copies
 }
